@@ -326,7 +326,6 @@ class CodeGenerator(nunavut._generators.AbstractGenerator):
         # reset the name generator state for this type
         UniqueNameGenerator.reset()
 
-        # Predetermine the post processor types.
         line_pps = []  # type: typing.List['nunavut._postprocessors.LinePostProcessor']
         file_pps = []  # type: typing.List['nunavut._postprocessors.FilePostProcessor']
         if self._post_processors is not None:
@@ -338,7 +337,8 @@ class CodeGenerator(nunavut._generators.AbstractGenerator):
                 else:
                     raise ValueError(f"PostProcessor type {type(pp)} is unknown.")
         logger.debug("Using post-processors: %r %r", line_pps, file_pps)
-
+        for line_pp in line_pps:
+            line_pp.reset()
         self._handle_overwrite(output_path, allow_overwrite)
         output_path.parent.mkdir(parents=True, exist_ok=True)
         with open(str(output_path), "w", encoding="utf-8") as output_file:
@@ -993,6 +993,8 @@ class SupportGenerator(CodeGenerator):
         target: pathlib.Path,
         line_pps: typing.List["nunavut._postprocessors.LinePostProcessor"],
     ) -> None:
+        for line_pp in line_pps:
+            line_pp.reset()
         with open(str(target), "w", encoding="utf-8") as target_file:
             with open(str(resource), "r", encoding="utf-8") as resource_file:
                 for resource_line in resource_file:
